@@ -571,7 +571,7 @@ func (x *fnCtx) addVC(st *State, fnShort, kind string, ord int, sub string, goal
 	if goal == True {
 		// decided by the generator's simplifier: recorded, discharged syntactically
 		switch kind {
-		case "post", "at_call", "at_store", "only_calls", "inv_init", "inv_keep", "step", "exit", "trace_step", "pre", "monitor", "lemma", "lockpost":
+		case "post", "at_call", "at_store", "only_calls", "inv_init", "inv_keep", "step", "exit", "trace_step", "pre", "monitor", "lemma", "lockpost", "callpost":
 			e.noteTrivial(name, fnShort, kind, ord, desc)
 		}
 		return
